@@ -2358,6 +2358,272 @@ def _codec_cases(ctx, rng, quick):
             ctx.disagree("header codec", ln[:200], i[:200], o[:200])
 
 
+# ======================================================================
+# C10 "sent from the original destination address where the method exposes it": the reply path of EVERY method that has
+# its own send_udp (found by introspection of sshuttle.methods), several name servers per session, judged at the socket
+
+def reply_source_methods():
+    """names of the modules of sshuttle.methods whose Method overrides BaseMethod.send_udp, and the ones that cannot be
+    imported on this machine"""
+    import importlib
+    import pkgutil
+    import sshuttle.methods as methods
+    found, skipped = [], []
+    for mi in sorted(pkgutil.iter_modules(methods.__path__), key=lambda x: x.name):
+        try:
+            mod = importlib.import_module("sshuttle.methods." + mi.name)
+        except Exception as e:
+            skipped.append("%s (%s)" % (mi.name, type(e).__name__))
+            continue
+        cls = getattr(mod, "Method", None)
+        if cls is not None and getattr(cls, "send_udp", None) is not methods.BaseMethod.send_udp:
+            found.append(mi.name)
+    return found, skipped
+
+
+def _reply_cmsgs(mod, dst):
+    """what the kernel attaches for the option the method's listener asks for: BSD IP_RECVDSTADDR (a bare in_addr; the
+    module defines the constant) or Linux IP(V6)_ORIGDSTADDR (a sockaddr)"""
+    if hasattr(mod, "IP_RECVDSTADDR") and not hasattr(mod, "IP_ORIGDSTADDR"):
+        if ":" in dst[0]:
+            return [(getattr(mod, "SOL_IPV6", 41), getattr(mod, "IPV6_RECVDSTADDR", 74),
+                     real_socket.inet_pton(real_socket.AF_INET6, dst[0]))]
+        return [(real_socket.SOL_IP, mod.IP_RECVDSTADDR, real_socket.inet_aton(dst[0]))]
+    return _cmsg_for(dst)
+
+
+def reply_source_run(modname, family, queries, schedule):
+    """One client session of the real ondns / dns_done with the real Method of sshuttle.methods.<modname>.
+    queries: [(asker, name server, query bytes, answer bytes)], schedule: [("q", i) | ("r", i)] (capture of query i /
+    DNS_RESPONSE for query i).  socket.socket as the method module sees it is a datagram socket that behaves like the
+    kernel's (bound once: a second bind is EINVAL; anything on a closed socket is EBADF; unbound sendto autobinds to the
+    wildcard address) and records what leaves.  Returns (sent, captured, notes): sent = [(source, destination, data)] in
+    order, captured = indices of the queries the method forwarded"""
+    import importlib
+    import sshuttle.client as client
+    import sshuttle.ssnet as ssnet
+    import sshuttle.helpers as helpers
+    mod = importlib.import_module("sshuttle.methods." + modname)
+    world = ClientWorld(family)
+    sent, notes = [], []
+
+    class KSock:
+        n = 0
+
+        def __init__(self, fam=real_socket.AF_INET, typ=real_socket.SOCK_STREAM, proto=0, fileno=None):
+            self.family, self.type, self.bound, self.closed = fam, typ, None, False
+
+        def _live(self):
+            if self.closed:
+                raise OSError(errno.EBADF, "Bad file descriptor")
+
+        def setsockopt(self, *a):
+            self._live()
+
+        def getsockopt(self, *a):
+            self._live()
+            return 0
+
+        def setblocking(self, b):
+            self._live()
+
+        def settimeout(self, t):
+            self._live()
+
+        def fileno(self):
+            return -1 if self.closed else 99
+
+        def getsockname(self):
+            self._live()
+            return self.bound or (("::" if self.family == real_socket.AF_INET6 else "0.0.0.0"), 0)
+
+        def bind(self, a):
+            self._live()
+            if self.bound is not None:
+                raise OSError(errno.EINVAL, "Invalid argument")
+            self.bound = tuple(a)
+
+        def connect(self, a):
+            self._live()
+            raise OSError(errno.EOPNOTSUPP, "not scripted")
+
+        def sendto(self, data, *rest):
+            self._live()
+            dst = rest[-1]
+            if self.bound is None:
+                KSock.n += 1
+                self.bound = (("::" if self.family == real_socket.AF_INET6 else "0.0.0.0"), 40000 + KSock.n)
+            sent.append((tuple(self.bound[:2]), tuple(dst[:2]), bytes(data)))
+            return len(data)
+
+        def close(self):
+            self.closed = True
+
+    class Lsn:
+        """the DNS listener: receives the captured query with the control message the method's option yields; a reply
+        sent through it leaves from the listener's own address"""
+        family = world.family
+
+        def recvfrom(self, bufsize):
+            src, dst, data = world.next
+            return (data[:bufsize], src)
+
+        def recvmsg(self, bufsize, ancsize=0, flags=0):
+            src, dst, data = world.next
+            return kernel_recvmsg(data, _reply_cmsgs(mod, dst), src, bufsize, ancsize)
+
+        def sendto(self, data, dst):
+            sent.append((("127.0.0.1", 12300), tuple(dst[:2]), bytes(data)))
+
+    over = dict(socket=KSock)
+    for name, val in (("SO_REUSEPORT", 15), ("IP_TRANSPARENT", 19), ("IP_BINDANY", 24)):
+        if not hasattr(real_socket, name):
+            over[name] = val
+    saved = (ssnet.set_non_blocking_io, client.time, client.log, helpers.log, ssnet.log, mod.socket, getattr(mod, "log", None))
+    captured, chans = [], {}
+    try:
+        ssnet.set_non_blocking_io = lambda fd: None
+        client.time = clock_shim(world)
+        client.log = helpers.log = ssnet.log = lambda s: notes.append(str(s)[:200])
+        if saved[6] is not None:
+            mod.log = client.log
+        mod.socket = Shim(real_socket, **over)
+        client.dnsreqs.clear()
+        client.udp_by_src.clear()
+        mux = ssnet.Mux(FakeR(), FakeW())
+        mux.outbuf = []
+        meth = mod.Method(modname)
+        lsn = Lsn()
+        for op, i in schedule:
+            src, dst, q, a = queries[i]
+            try:
+                if op == "q":
+                    before = set(mux.channels)
+                    world.next = (tuple(src), tuple(dst), q)
+                    client.ondns(lsn, meth, mux, [])
+                    new = sorted(set(mux.channels) - before)
+                    if new:
+                        chans[i] = new[0]
+                        captured.append(i)
+                elif i in chans:
+                    mux.got_packet(chans.pop(i), CMD["R"], a)
+            except Exception as e:
+                notes.append("%s %d raised %s: %s" % (op, i, exc_name(e), str(e)[:120]))
+    finally:
+        (ssnet.set_non_blocking_io, client.time, client.log, helpers.log, ssnet.log, mod.socket) = saved[:6]
+        if saved[6] is not None:
+            mod.log = saved[6]
+        client.dnsreqs.clear()
+        client.udp_by_src.clear()
+    return sent, captured, notes
+
+
+def reply_source_oracle(modname, queries, schedule, sent, captured, notes):
+    """looks only at what left the machine: the answer to a forwarded query must leave as a datagram whose source is the
+    address the query was sent to and whose destination is the asker.  Sockets left open are not judged"""
+    def a_s(a):
+        return "%s:%d" % (a[0], a[1])
+    out = []
+    answered = [i for op, i in schedule if op == "r" and i in captured]
+    for i in answered:
+        src, dst, q, a = queries[i]
+        src, dst = tuple(src[:2]), tuple(dst[:2])
+        mine = [(s, d) for s, d, data in sent if data == a]
+        if not mine:
+            out.append("method %s: the reply for the query %s sent to %s did not leave at all%s"
+                       % (modname, a_s(src), a_s(dst), (" (" + notes[-1] + ")") if notes else ""))
+            continue
+        for s, d in mine:
+            if s != dst:
+                earlier = [j for j in captured if j != i and tuple(queries[j][1][:2]) == s]
+                out.append("method %s: reply for the query sent to %s left from %s%s" % (
+                    modname, a_s(dst), a_s(s), " (the address of another query's destination)" if earlier else ""))
+            if d != src:
+                out.append("method %s: reply for the query of %s (sent to %s) was addressed to %s" % (modname, a_s(src), a_s(dst), a_s(d)))
+    return out
+
+
+def gen_reply_source_case(rng, family):
+    v6 = family == real_socket.AF_INET6
+    servers = rng.sample((["fd00::%x" % k for k in range(1, 7)] if v6 else ["10.0.0.%d" % k for k in range(1, 7)]), rng.randint(2, 3))
+    askers = [(("fd00:1::%x" if v6 else "192.168.1.%d") % rng.randint(2, 5), rng.randint(1024, 65535)) for _ in range(rng.randint(1, 3))]
+    n = rng.randint(2, 6)
+    queries = []
+    for i in range(n):
+        ns = servers[i] if i < len(servers) else rng.choice(servers)
+        queries.append((rng.choice(askers), (ns, 53), b"q%d-" % i + bytes(rng.randrange(256) for _ in range(rng.randint(0, 12))),
+                        b"a%d-" % i + bytes(rng.randrange(256) for _ in range(rng.randint(0, 12)))))
+    # random interleaving with every answer after its query
+    pend, todo, schedule = [], list(range(n)), []
+    while todo or pend:
+        if todo and (not pend or rng.random() < 0.55):
+            i = todo.pop(0)
+            schedule.append(("q", i))
+            pend.append(i)
+        else:
+            schedule.append(("r", pend.pop(rng.randrange(len(pend)))))
+    return queries, schedule
+
+
+def ser_reply_source(modname, family, queries, schedule):
+    return {"oracle": "reply-source", "method": modname, "family": int(family),
+            "replies": [[list(s), list(d), hx(q), hx(a)] for s, d, q, a in queries], "schedule": [list(x) for x in schedule]}
+
+
+def _unhx(s):
+    return b"" if s == "-" else bytes.fromhex(s)
+
+
+def run_c10_reply_source(ctx):
+    import random
+    # its own stream, derived from the run's seed (VERIF_SEED): the scripts of the other parts stay what they were
+    rng = random.Random("C10-reply-source-%s" % getattr(ctx, "seed", 0))
+    found, skipped = reply_source_methods()
+    ctx.extra["methods_with_own_send_udp"] = found
+    ctx.extra["method_modules_not_importable"] = skipped
+    a1, a2 = ("192.168.1.2", 40001), ("192.168.1.3", 40002)
+    hand = [
+        ([(a1, ("10.0.0.1", 53), b"q0", b"a0"), (a1, ("10.0.0.2", 53), b"q1", b"a1")], [("q", 0), ("r", 0), ("q", 1), ("r", 1)]),
+        ([(a1, ("10.0.0.1", 53), b"q0", b"a0"), (a2, ("10.0.0.2", 53), b"q1", b"a1")], [("q", 0), ("q", 1), ("r", 1), ("r", 0)]),
+        ([(a1, ("10.0.0.1", 53), b"q0", b"a0"), (a1, ("10.0.0.2", 53), b"q1", b"a1"), (a1, ("10.0.0.1", 53), b"q2", b"a2")],
+         [("q", 0), ("q", 1), ("r", 0), ("q", 2), ("r", 1), ("r", 2)]),
+    ]
+    for modname in found:
+        cases = [(real_socket.AF_INET, q, s, "handmade") for q, s in hand]
+        for k in range(150 if ctx.quick() else 2000):
+            fam = real_socket.AF_INET6 if k % 4 == 3 else real_socket.AF_INET
+            q, s = gen_reply_source_case(rng, fam)
+            cases.append((fam, q, s, "random"))
+        for fam, queries, schedule, kind in cases:
+            sent, captured, notes = reply_source_run(modname, fam, queries, schedule)
+            viol = reply_source_oracle(modname, queries, schedule, sent, captured, notes)
+            ctx.count("reply_source_sessions_%s_%s" % (modname, kind))
+            ctx.count("reply_source_queries_forwarded_%s_family_%d" % (modname, int(fam)), len(captured))
+            ctx.count("reply_source_queries_not_exposed_%s_family_%d" % (modname, int(fam)), len(queries) - len(captured))
+            ctx.count("reply_source_replies_sent_%s" % modname, len(sent))
+            if len({tuple(queries[i][1]) for i in captured}) >= 2:
+                ctx.count("reply_source_sessions_with_2plus_name_servers_%s" % modname)
+            ctx.case(("reply-source", modname, int(fam), repr(queries), repr(schedule)), nontrivial=len(sent) > 0,
+                     sample={"side": "client-reply-source", "method": modname, "family": int(fam), "queries": len(queries),
+                             "sent": len(sent)})
+            for what in viol[:1]:
+                ctx.violation(what, dict(ser_reply_source(modname, fam, queries, schedule),
+                                         observed=[["%s:%d" % s, "%s:%d" % d, hx(x)] for s, d, x in sent], notes=notes[-3:]))
+                break
+            if viol:
+                break      # one witness per method is enough
+
+
+def replay_reply_source(rp):
+    r = rp["replay"]
+    queries = [(tuple(s), tuple(d), _unhx(q), _unhx(a)) for s, d, q, a in r["replies"]]
+    schedule = [tuple(x) for x in r["schedule"]]
+    sent, captured, notes = reply_source_run(r["method"], r["family"], queries, schedule)
+    v = reply_source_oracle(r["method"], queries, schedule, sent, captured, notes)
+    print("reply-source", r["method"], "->", sent, v)
+    return bool(v)
+
+
 def run_check(ctx, prop):
     rng = ctx.rng
     quick = ctx.quick()
@@ -2375,6 +2641,7 @@ def run_check(ctx, prop):
     run_main_cases(ctx, prop)
     if prop == "C10":
         run_c10_resolv(ctx)
+        run_c10_reply_source(ctx)
     _system_cases(ctx, rng, quick, prop)
 
     # ---- client scripts
@@ -2487,6 +2754,8 @@ def replay(ctx, rp, prop):
         return replay_main(prop, rp)
     if r.get("oracle") == "resolv-conf":
         return replay_c10_resolv(prop, rp)
+    if r.get("oracle") == "reply-source":
+        return replay_reply_source(rp)
     if "witness" in r:
         fails, last = witness_fails(r["witness"])
         print("witness", r["witness"], "->", last)
@@ -2972,12 +3241,147 @@ def run_c06_dgram(ctx):
         for what, detail in viol:
             ctx.violation(what, {"script": ser_client(m, mc, fam, evs), "detail": detail, "oracle": "flows"})
     run_c06_system(ctx)
+    run_c06_reuse(ctx)
+
+
+# C06 "the peer frees an identifier before it sees its re-use", UDP associations, on the composition (real client
+# functions + real server.main over FIFO links): the client gives identifier X back (idle expiry -> UDP_CLOSE(X)) and
+# hands X to a new association strictly later in stream order (UDP_OPEN(X)); the server must accept that UDP_OPEN
+# whether the two frames come in one read of the tunnel or in two.
+
+def system_udp_reuse_case(rng, maxc):
+    """UDP associations take (nearly) all of the maxc identifiers and reach the server; some sources stay active, the
+    others go idle past the 30-second horizon; new sources arrive: the client's sweep sends UDP_CLOSE for the idle
+    ones and the allocator hands their identifiers to the new sources; the server consumes the frames in ONE read or
+    split at a random point; every association the server then holds gets a unique reply; everything is delivered."""
+    srcs = [("10.0.0.%d" % i, 4000 + i) for i in range(1, 9)]
+    R = rng.choice([("8.8.8.8", 53), ("1.1.1.1", 123), ("fd00::53", 65535)])
+    r = SystemRun(maxc, method="T")
+    c = s = rng.choice([0, 100, 1000000])
+    n0 = min(4, rng.randint(max(1, maxc - 1), maxc))
+    for i in range(n0):
+        if not r.stuck:
+            r.accept_ev(("U", c, srcs[i], R, b"old-%d" % i))
+    if not r.stuck:
+        r.server_io(s, len(r.up), [], [])
+    for i in range(n0):
+        if not r.stuck and rng.random() < 0.3:
+            r.accept_ev(("U", c + 20, srcs[i], R, b"still-active-%d" % i))
+    if not r.stuck and rng.random() < 0.3:
+        r.server_io(s + 20, len(r.up), [], [])
+    gap = rng.choice([29, 30, 31, 31, 32, 45])
+    for j in range(rng.randint(1, maxc + 2)):
+        if not r.stuck:
+            r.accept_ev(("U", c + gap, srcs[4 + rng.randrange(4)], R, b"new-%d" % j))
+    if not r.stuck and rng.random() < 0.35:
+        r.server_io(s + gap, rng.randint(0, len(r.up)), [], [])            # the tunnel delivers a prefix first
+    if not r.stuck:
+        r.server_io(s + gap + 1, len(r.up), [], [])
+    for n, sk in enumerate(sorted(r.usock.values())):
+        if not r.stuck:
+            r.server_io(s + gap + 2, 0, [sk], [("f", b"uniq-reuse-%d" % n, R)])
+    while r.down and not r.stuck:
+        r.deliver()
+    return r
+
+
+REUSE_WHAT = ("c06_udp_identifier_not_freed_before_reuse: 'the peer frees an identifier before it sees its re-use' - server "
+              "received UDP_CLOSE(X) then UDP_OPEN(X) %s: identifier X not freed before its re-use - %s")
+
+
+def udp_reuse_verdict(r):
+    """wire-only oracle on the server side of a composed run: a UDP_OPEN(X) that follows the UDP_CLOSE(X) of X's
+    previous association in stream order must be accepted (the server has freed X by then): server.main does not
+    end in that iteration, a remote socket is created for it and the UDP_DATA(X) that follow in the same read are
+    sent from that socket.  returns ([(what, detail)], number of re-uses seen, of which close and open in one read)"""
+    v, closed, opened, seen, same = [], set(), set(), 0, 0
+    for i, (now, frames, ready, io) in enumerate(r.sevs):
+        st = r.srv_steps[i] if i < len(r.srv_steps) else None
+        ended = st is None or not st.startswith("OK ")
+        outs = [] if ended else parse_outs(st)
+        ks = [int(o[1]) for o in outs if o[0] == "K"]
+        n_open = sum(1 for f in frames if f[1] == "O")
+        closed_here, ki = set(), 0
+        for j, f in enumerate(frames):
+            ch, key = f[0], f[1]
+            if key == "C":
+                if ch in opened:
+                    opened.discard(ch)
+                    closed.add(ch)
+                    closed_here.add(ch)
+            elif key == "O":
+                k_idx, ki = ki, ki + 1
+                if ch in opened:
+                    continue                       # not a conforming re-use (never produced by the real client)
+                opened.add(ch)
+                if ch not in closed:
+                    continue                       # first use of the identifier
+                closed.discard(ch)
+                seen += 1
+                one = ch in closed_here
+                same += 1 if one else 0
+                where = "in one read" if one else "in two reads"
+                head = ("server received UDP_CLOSE(%d) then UDP_OPEN(%d) %s (iteration %d, frames %s): identifier not freed "
+                        "before its re-use - " % (ch, ch, where, i, ",".join("%s(%d)" % (g[1], g[0]) for g in frames)))
+                if ended:
+                    how = r.srv_steps[-1] if r.srv_steps else "nothing"
+                    v.append((REUSE_WHAT % (where, "server ended with Fatal('UDP connection channel X already open') (SystemExit out of server.main)"
+                                            if how == "FATAL" else "server.main ended with an exception"),
+                              head + "server.main ended with %s%s" % (how, " (SystemExit of Fatal: server.py udp_open 'UDP connection "
+                                                                       "channel %d already open')" % ch if how == "FATAL" else "")))
+                    return v, seen, same
+                if len(ks) != n_open:
+                    v.append((REUSE_WHAT % (where, "the new flow was not opened (no remote socket created)"),
+                              head + "the server created %d remote sockets for the %d UDP_OPEN frames of the read: the new flow "
+                                     "was not opened" % (len(ks), n_open)))
+                    continue
+                sk = ks[k_idx]
+                for g in frames[j + 1:]:
+                    if g[0] == ch and g[1] == "C":
+                        break
+                    if g[0] == ch and g[1] == "D" and udp_body_ok(g[2]):
+                        body = g[2].split(b",", 2)[2]
+                        if not any(o[0] == "T" and int(o[1]) == sk and o[3] == hx(body) for o in outs):
+                            v.append((REUSE_WHAT % (where, "the new flow's datagrams were dropped"),
+                                      head + "the new flow's datagram %r was not sent from its remote socket %d (dropped)" % (body, sk)))
+        if ended:
+            break
+    return v, seen, same
+
+
+def run_c06_reuse(ctx):
+    rng, quick = ctx.rng, ctx.quick()
+    for i in range(80 if quick else 2000):
+        maxc = rng.choice([1, 1, 2, 2, 3, 4])
+        r = system_udp_reuse_case(rng, maxc)
+        v, seen, same = udp_reuse_verdict(r)
+        ctx.count("system_runs")
+        ctx.count("system_runs_udp_reuse")
+        ctx.count("system_udp_identifier_reuses_seen_by_server", seen)
+        ctx.count("system_udp_close_and_reopen_in_one_read", same)
+        ctx.count("system_datagrams_delivered", r.delivered)
+        if r.stuck:
+            ctx.count("system_runs_stuck")
+        ctx.case(("system", "udp_reuse", repr(r.ops)), nontrivial=seen > 0,
+                 sample={"side": "system", "kind": "udp_reuse", "max_channel": r.maxc, "reuses": seen, "in_one_read": same,
+                         "delivered": r.delivered, "log": r.log[-4:]})
+        for what, detail in v:
+            ctx.violation(what, dict(system_rep(r), detail=detail))
+        if r.udp_cross and r.udp_hyp_ok:
+            ctx.violation("c06_udp_reply_delivered_to_another_source", dict(system_rep(r), detail=r.udp_cross[0]))
+        if r.stuck and not v:
+            ctx.violation("c06_dgram_raised: a step of the real code raised on a well-formed run of UDP associations",
+                          dict(system_rep(r), detail=r.stuck))
 
 
 def replay_flows(prop, rp):
     if rp.get("replay", {}).get("oracle") == "system":
         r = system_replay(rp["replay"]["system"])
         v = [x for x in system_verdict(r) if prop != "C06" or x[0] != "expired_query_still_waited_on"]
+        if prop == "C06":
+            v += udp_reuse_verdict(r)[0]
+            if r.stuck and not v:
+                v.append(("raised", r.stuck))
         print("system run ->", r.log[-1] if r.log else "", v)
         return bool(v)
     sc = rp.get("replay", {}).get("script")
